@@ -29,7 +29,7 @@ type C15Case struct {
 	Defaulted bool                         `json:"defaulted"`
 	Pods      []*corev1.Pod                `json:"pods"`
 	Revs      []*appsv1.ControllerRevision `json:"revs"`
-	Steps     []int                        `json:"steps"` // 0 reconcile, 1 kubelet-all, 2 reconcile with permuted cache, 3 refresh, 4 the set is deleted with orphan propagation and re-created under its name, 5 reconcile during which - right before the status write - the set is deleted (the cache sees it) and re-created (the cache does not yet)
+	Steps     []int                        `json:"steps"` // 6 the stored status loses an optional field (collisionCount: an older client or a status patch wrote it) and the set is reconciled again; 0 reconcile, 1 kubelet-all, 2 reconcile with permuted cache, 3 refresh, 4 the set is deleted with orphan propagation and re-created under its name, 5 reconcile during which - right before the status write - the set is deleted (the cache sees it) and re-created (the cache does not yet)
 }
 
 func (c C15Case) Summary() interface{} {
@@ -267,7 +267,7 @@ func genC15(rt *rapid.T) C15Case {
 	c.Revs = genC15Revs(rt, c.Set)
 	n := rapid.IntRange(1, 8).Draw(rt, "nsteps")
 	for i := 0; i < n; i++ {
-		c.Steps = append(c.Steps, rapid.SampledFrom([]int{0, 0, 0, 0, 1, 1, 2, 3, 4, 5}).Draw(rt, "step"))
+		c.Steps = append(c.Steps, rapid.SampledFrom([]int{0, 0, 0, 0, 1, 1, 2, 3, 4, 5, 6, 6}).Draw(rt, "step"))
 	}
 	return c
 }
@@ -345,6 +345,17 @@ func runC15(rep Rep, c C15Case) {
 			cl.RefreshAll()
 		case 3:
 			cl.RefreshAll()
+		case 6:
+			if cur := cl.Set(NS, set.Name); cur != nil {
+				cur.Status.CollisionCount = nil
+				cl.Put(cur)
+				cl.RefreshAll()
+				rep.Label("status-rewritten-without-optional-field")
+				if r := cl.Reconcile(key); r.Panic != nil {
+					rep.Violate("panic@"+repoFrame(r.Stack), "reconcile panicked: %v\n%s\n%s", r.Panic, r.Transcript(), r.Stack)
+				}
+				cl.RefreshAll()
+			}
 		case 4:
 			old := cl.Set(NS, set.Name)
 			if old == nil {
